@@ -512,6 +512,30 @@ def sc123(P, C):
     C.ob("SC-2", "searchcenters", "bracket-at-exit", okb, f.loc(dw[0]) if dw else f.where(),
          det + " — so, if it terminates, knots[c] <= x < knots[c+1]; with the clamps (x >= knots[order], x < knots[naxes]) and sorted knots this "
          "gives order <= c <= naxes-1 = nknots-order-2")
+    # SC-5: termination as a consequence of the checked premises (bisection invariant)
+    C.rule("SC-5", "termination of the centre search follows from structural premises: the loop is entered only with knots[order] <= x < knots[naxes] "
+           "(both clamps precede it), its interval [order, nknots-2] contains [order, naxes-1], each step keeps a bracketing index inside the "
+           "interval and strictly shrinks it, and it stops as soon as the bracket is found", floor=1)
+    prem = {o["symbol"]: o["ok"] for o in C.obligations if o["rule"] == "SC-2" and o["function"] == "searchcenters"}
+    need = ["lower-clamp", "upper-clamp", "search-interval", "bisection-step", "bracket-at-exit"]
+    # the clamps must come before the search in the iteration, and both leave the iteration (continue)
+    body = f.nodes[outer]["body"]
+    kids = f.ch(body)
+    order_ok = False
+    if dw:
+        top_dw = next((k for k in kids if dw[0] in set(f.walk(k))), None)
+        clamp_ifs = [k for k in kids if f.k(k) == "IfStmt" and any(f.k(x) == "ContinueStmt" for x in f.walk(k))]
+        order_ok = bool(clamp_ifs) and top_dw is not None and all(kids.index(k) < kids.index(top_dw) for k in clamp_ifs)
+        lo_c = clamp.get(("$0[#]", "<", "knots[#][order[#]]"), "")
+        hi_c = clamp.get(("$0[#]", ">=", "knots[#][naxes[#]]"), "")
+        order_ok = order_ok and "ContinueStmt" in lo_c and "ContinueStmt" in hi_c
+    okt = all(prem.get(k) for k in need) and order_ok
+    C.ob("SC-5", "searchcenters", "termination-premises", okt, f.where(),
+         "premises %s; clamps precede the search and leave the iteration: %s. Argument: with sorted knots (C07) and knots[order] <= x < knots[naxes] "
+         "there is c* in [order, naxes-1] with knots[c*] <= x < knots[c*+1]; naxes-1 = nknots-order-2 <= nknots-2, so c* lies in the initial "
+         "interval; a step at c either stops (bracket found), or x < knots[c] gives c* <= c-1 = max', or x >= knots[c+1] gives c* >= c+1 = min'; "
+         "so min <= c* <= max is invariant, the interval is never empty and loses at least one index per step." %
+         ({k: prem.get(k) for k in need}, order_ok))
     # SC-3 wiring
     ops = [g for g in P.fns("operator()") if g.unit == "driver" and "/bspline_eval.h" in g.file and g.kind == "method"]
     if len(ops) < 3:
